@@ -45,6 +45,11 @@ def handle : List String → Option String
     let xs ← parseFloats? xs
     let (b, c) := weibullPwm2 xs
     some (showFs [b, c])
+  | "est.wbmsm" :: c :: xs => do
+    let c ← parseFloatBits? c
+    let xs ← parseFloats? xs
+    let (a, b, c') := weibullMsmGiven c xs
+    some (showFs [a, b, c', sampleSkew xs])
   | "est.gupwm" :: xs => do
     let xs ← parseFloats? xs
     let (a, b) := gumbelPwm xs
